@@ -414,6 +414,26 @@ FinalDeadEndGames ==
     IN  { mk(o1, o3, o4, fin, r) : o1 \in {P1, P2, PR}, o3 \in {P1, P2, PR}, o4 \in {P1, PR},
                                   fin \in {<<2, 6>>, <<6, 2>>}, r \in {0, 3} }
 
+(* KeyCollide: action names that begin with digits, in a game with more than   *)
+(* ten states: (Python) state 1 has the non-optimal, rich action "2x", state 12 *)
+(* the optimal action "x" -- whoever builds keys by gluing index and name gets  *)
+(* "12x" twice.                                                                 *)
+(*   1 init -> 2, 13 ; 2: "2x" -> 11 (risky, reward 10), "y" -> win ;           *)
+(*   3..10 fillers ; 11 risky ; 12 lose ; 13: "x" -> win, "w" -> lose ; 14 win   *)
+KeyCollideGames ==
+    { [n |-> 14,
+       owner  |-> [s \in 1..14 |-> IF s \in {1, 11, 12, 14} THEN PR ELSE IF s \in {2, 13} THEN o ELSE P1],
+       reward |-> [s \in 1..14 |-> IF s = 11 THEN 10 ELSE IF s = 2 THEN 1 ELSE 0],
+       tr |-> [s \in 1..14 |->
+                 CASE s = 1 -> <<Tr("", 1, 2), Tr("", 1, 13)>>
+                   [] s = 2 -> (IF swap THEN <<Tr("y", 0, 14), Tr("2x", 0, 11)>> ELSE <<Tr("2x", 0, 11), Tr("y", 0, 14)>>)
+                   [] s = 11 -> <<Tr("", 1, 14), Tr("", 1, 12)>>
+                   [] s = 12 -> <<Tr("", 1, 12)>>
+                   [] s = 13 -> <<Tr("x", 0, 14), Tr("w", 0, 12)>>
+                   [] s = 14 -> <<Tr("", 1, 14)>>
+                   [] OTHER -> <<Tr("f", 0, 14)>>],
+       final |-> <<14>>] : o \in {P1}, swap \in BOOLEAN }
+
 (* ZeroW: probabilistic transitions of weight 0 (never taken, but present):  *)
 (* into dead states, into the final state, next to live ones.                *)
 (*   1 chooser ; 2 chance with a zero-weight edge ; 3 live ; 4 dead ; 5 lose ; 6 win *)
@@ -598,6 +618,7 @@ PermBase(i) ==
     ELSE IF i % 18 = 5 THEN RandomElement(SlowRewGames)
     ELSE IF i % 18 = 11 THEN RandomElement(BackChainGames)
     ELSE IF i % 18 = 2 THEN RandomElement(FinalDeadEndGames)
+    ELSE IF i % 36 = 13 THEN RandomElement(KeyCollideGames)
     ELSE IF i % 18 = 14 THEN RandomElement(ZeroWGames)
     ELSE IF i % 9 = 8 THEN RandomElement(IF i % 2 = 0 THEN TieUp ELSE TieGames)
     ELSE IF i % 3 = 0 THEN RandomElement(DeadGames)
